@@ -275,6 +275,9 @@ def run_session(cfg, csv_path, symbols, data_source=None, probe_signals=False, h
         r.alloc_table, r.data_handler = [], r_dh
         return r
     r.bt = bt
+    if cfg.get('extra_clock_events'):
+        # the session's clock also emits the pre- and post-market events (its public flags are switched on)
+        bt.sim_engine.pre_market = bt.sim_engine.post_market = True
     port = bt.broker.portfolios[bt.portfolio_id]
     r.port = port
     log = []
